@@ -28,6 +28,7 @@ type harnessDef struct {
 	NoReplay bool // violations cannot be replayed natively (reported as inconclusive)
 	Witness  int
 	OnlyTier string
+	Repeat   int    // native replays of a schedule-dependent counterexample (with jitter) before giving up
 	DualTags string // second program (translation validation): run the harness in both, compare emits
 }
 
@@ -217,6 +218,8 @@ func runNativeBin(bin, dir, fn, cexPath string, timeout time.Duration) (*nativeR
 	res.out = string(out)
 	for _, l := range strings.Split(res.out, "\n") {
 		switch {
+		case strings.Contains(l, "test timed out"):
+			res.timedOut = true
 		case strings.HasPrefix(l, "VERIF-RETURNED"):
 			res.returned = true
 		case strings.HasPrefix(l, "VERIF-PANIC "):
@@ -241,7 +244,7 @@ func reproduced(v *sym.Outcome, nr *nativeResult) bool {
 		return nr.panicMsg != "" && !strings.HasPrefix(nr.panicMsg, "VERIF-")
 	case "alloc-ceiling":
 		return strings.Contains(nr.panicMsg, "out of memory") || strings.Contains(nr.panicMsg, "makeslice") || strings.Contains(nr.panicMsg, "VERIF-ALLOC") || strings.Contains(nr.out, "cannot allocate memory") || strings.Contains(nr.out, "out of memory")
-	case "deadlock":
+	case "deadlock", "does-not-return":
 		return nr.timedOut
 	case "goroutine-leak":
 		return strings.Contains(nr.out, "VERIF-LEAK")
@@ -453,20 +456,49 @@ func runCheck(pd *propDef, tier string, seed int, verifDir, only string, workers
 		}
 		// --- violations
 		seen := map[string]bool{}
+		reported, attempts := 0, 0
 		for _, v := range rep.Violations {
 			key := v.Label + "|" + v.Site + "|" + firstLine(v.Msg)
+			if v.Label == "does-not-return" || v.Label == "deadlock" {
+				key = v.Label
+			}
 			if seen[key] {
 				continue
 			}
 			seen[key] = true
+			if reported >= 3 || attempts >= 12 {
+				// enough to fail the check; the evidence lists the rest
+				continue
+			}
+			attempts++
 			if hd.NoReplay {
 				inconclusive = append(inconclusive, fmt.Sprintf("%s: violation %s (%s) cannot be replayed natively", hd.Name, v.Label, firstLine(v.Msg)))
 				continue
 			}
-			nr, err := cr.runNative(parts[0], tags, parts[1], v.Model, params, 60*time.Second)
+			ntimeout := 60 * time.Second
+			if v.Label == "does-not-return" || v.Label == "deadlock" {
+				ntimeout = 15 * time.Second
+			}
+			nr, err := cr.runNative(parts[0], tags, parts[1], v.Model, params, ntimeout)
 			if err != nil {
 				inconclusive = append(inconclusive, hd.Name+": native replay: "+firstLine(err.Error()))
 				continue
+			}
+			if hd.Repeat > 0 && !reproduced(v, nr) {
+				// schedule-dependent: retry with randomised delays at the harness' yield points
+				os.Setenv("VERIF_JITTER", "1")
+				budget := time.Now().Add(90 * time.Second)
+				for i := 0; i < hd.Repeat && !reproduced(v, nr) && time.Now().Before(budget); i++ {
+					nr, err = cr.runNative(parts[0], tags, parts[1], v.Model, params, ntimeout)
+					if err != nil {
+						break
+					}
+				}
+				os.Unsetenv("VERIF_JITTER")
+				if err != nil {
+					inconclusive = append(inconclusive, hd.Name+": native replay: "+firstLine(err.Error()))
+					continue
+				}
 			}
 			if strings.HasPrefix(v.Label, "dual:") {
 				nr2, err := cr.runNative(parts[0], hd.DualTags, parts[1], v.Model, params, 60*time.Second)
@@ -492,6 +524,7 @@ func runCheck(pd *propDef, tier string, seed int, verifDir, only string, workers
 				continue
 			}
 			violations++
+			reported++
 			dir := cr.saveReplay(pd.ID, hd, tags, params, v, nr)
 			fmt.Printf("VIOLATION property=%s replay=%s\n", pd.ID, dir)
 			fmt.Printf("  harness=%s label=%s site=%s msg=%s choices=[%s]\n", hd.Name, v.Label, v.Site, firstLine(v.Msg), v.Choices)
